@@ -588,7 +588,8 @@ FIRSTREAD_TARGETS = {"rfind": "last", "find_last_of": "last", "find_last_not_of"
 def check_first_read(chk, db, record="etl::basic_string_view", rule="FIRSTREAD"):
     """[string.view.find]: a backward search looks at position min(pos, size() - 1) first (single characters; rfind of a
     character, find_last_of, find_last_not_of), a forward search at pos when pos < size() and at nothing otherwise. Every
-    overload that scans by itself is executed in the models size() in 1..3, pos in 0..4 and npos, needle length 1..2."""
+    overload that scans by itself is executed in the models size() in 0..3, pos in 0..4 and npos, needle length 1..2 (an empty
+    view is never read)."""
     n = 0
     for nm, direction in sorted(FIRSTREAD_TARGETS.items()):
         for f in db.by_q.get(record + "::" + nm, []):
@@ -608,7 +609,7 @@ def check_first_read(chk, db, record="etl::basic_string_view", rule="FIRSTREAD")
             chk.instance(rule)
             bad = unknown = None
             judged = 0
-            for S in (1, 2, 3):
+            for S in (0, 1, 2, 3):
                 for N in ((1, 2) if needle_is_view else (1,)):
                     for P in (0, 1, 2, 3, 4, M64 - 1):
                         env = {p1["n"]: P}
@@ -621,7 +622,7 @@ def check_first_read(chk, db, record="etl::basic_string_view", rule="FIRSTREAD")
                             unknown = str(ex)
                             break
                         judged += 1
-                        want = min(P, S - 1) if direction == "last" else (P if P < S else None)
+                        want = (min(P, S - 1) if S > 0 else None) if direction == "last" else (P if P < S else None)
                         if got != want and bad is None:
                             bad = (P, N, S, got, want)
                     if unknown:
